@@ -169,7 +169,15 @@ def validator(field: BaseField) -> Callable:
 
     def inner(func: Union[ConfigValidator, FieldValidator]) -> Callable:
         if isinstance(field, Field):
-            field.validator = func  # type: ignore
+            previous = field.validator
+            if previous is None:
+                field.validator = func  # type: ignore
+            else:
+                # a further validator on the same field runs after the earlier ones
+                def chained(cfg, value, _first=previous, _then=func):
+                    return _then(cfg, _first(cfg, value))  # type: ignore
+
+                field.validator = chained  # type: ignore
         elif isinstance(field, Schema):
             field._validators.append(func)  # type: ignore
 
